@@ -6,7 +6,7 @@ pub mod refcodec;
 
 #[cfg(all(kani, feature = "c00"))]
 mod c00;
-#[cfg(all(kani, feature = "c01"))]
+#[cfg(all(kani, any(feature = "c01", feature = "c04", feature = "c03", feature = "c09", feature = "c11", feature = "c13", feature = "c14", feature = "c15")))]
 mod c01;
 #[cfg(all(kani, feature = "c02"))]
 mod c02;
